@@ -129,23 +129,135 @@ def crossing(role, kind, park):
         pair.close()
 
 
+API_FUNC = {"shutdown_write": "shutdown", "send": "_send", "close": "close"}
+API_TYPE = {"shutdown_write": 96, "send": 94, "close": 96}
+
+
+def held_rekey(role, api, inflight):
+    """A user thread makes a channel call that ends in `_send_user_message` while a re-exchange started by the
+    subject is held open (the subject's reader is gated), with a peer message for the same channel whose handler
+    takes Channel.lock already in flight ahead of the peer's kex packets.  Then the link is released."""
+    from tests._loop import LoopSocket
+
+    gate, other = L.gate_socket(), LoopSocket()
+    gate.link(other)
+    socks = (other, gate) if role == "server" else (gate, other)
+    pair = L.Pair(role, "Transport", True, socks=socks)
+    sub, peer = pair.subject, pair.peer
+    out = {"role": role, "api": api, "inflight": inflight}
+    try:
+        ch = pair.tc.open_session(timeout=30)
+        sch = pair.ts.accept(30)
+        if sch is None:
+            raise InfraError("accept timed out")
+        sub_ch, peer_ch = (sch, ch) if role == "server" else (ch, sch)
+        tap = L.Tap(sub)
+        sub.clear_to_send_timeout = 3.0
+        if not pair.barrier():
+            raise InfraError("session not usable before the re-exchange")
+        entered = threading.Event()
+        orig_sum = sub._send_user_message
+
+        def send_user_message(m):        # observation only: the user thread has reached the gate of the exchange
+            entered.set()
+            return orig_sum(m)
+
+        sub._send_user_message = send_user_message
+        gate.gate.clear()
+        if inflight == "window":
+            peer._send_message(L.msg(93, sub_ch.chanid, 4096))
+        else:
+            peer_ch.shutdown_write()                      # the peer's EOF for this channel
+        mark = len(tap.tx)
+        sub._send_kex_init()
+        user_exc = []
+
+        def user():
+            try:
+                if api == "shutdown_write":
+                    sub_ch.shutdown_write()
+                elif api == "send":
+                    sub_ch.sendall(b"sent-during-kex")
+                else:
+                    sub_ch.close()
+            except Exception as e:
+                user_exc.append(e)
+
+        th = threading.Thread(target=user, daemon=True)
+        th.start()
+        if not entered.wait(20):
+            raise InfraError("the user thread never reached _send_user_message")
+        gate.gate.set()
+
+        def settled():
+            return (not sub.is_alive() or not peer.is_alive()) or (
+                not sub.in_kex and not peer.in_kex and sub.clear_to_send.is_set() and peer.clear_to_send.is_set()
+                and any(r[0] == 21 for r in tap.tx[mark:]))
+
+        t0 = time.time()
+        while not (settled() and not th.is_alive()) and time.time() - t0 < 25:
+            time.sleep(0.01)
+        out["seconds"] = round(time.time() - t0, 2)
+        types = [r[0] for r in tap.tx[mark:]]
+        window = []
+        for t in types[1:] if types and types[0] == 20 else types:
+            if t == 21:
+                break
+            window.append(t)
+        out["window"] = window
+        out["after_newkeys"] = types[types.index(21) + 1:] if 21 in types else []
+        out["completed"] = bool(21 in types and sub.is_active() and peer.is_active() and settled())
+        out["user_returned"] = not th.is_alive()
+        out["user_exc"] = repr(user_exc[0]) if user_exc else "-"
+        out["sub_exc"] = repr(sub.saved_exception)
+        delivered = False
+        if out["completed"] and out["user_returned"] and not user_exc:
+            peer_ch.settimeout(20)
+            try:
+                if api == "send":
+                    got = b""
+                    while len(got) < 15:
+                        x = peer_ch.recv(64)
+                        if not x:
+                            break
+                        got += x
+                    delivered = got == b"sent-during-kex"
+                else:
+                    delivered = peer_ch.recv(16) == b""          # end of stream: the EOF arrived
+            except Exception:
+                delivered = False
+        out["delivered"] = delivered
+        return out
+    finally:
+        pair.close()
+
+
 def run(ctx):
     L.quiet_logging()
     L.stub_gss()
     ctx.rule = ("one connection-layer message of each of 10 kinds in flight towards the initiator of a re-exchange, "
                 "both roles as initiator, with and without a user thread sending on a channel during the exchange; "
-                "distinct = (role, kind, parked sender); non-trivial = the kind has a handler that answers")
+                "distinct = (role, kind, parked sender); non-trivial = the kind has a handler that answers. Plus: a "
+                "user-thread shutdown_write()/sendall()/close() made while a re-exchange is held open, with a "
+                "WINDOW_ADJUST or EOF for the same channel (handlers that take Channel.lock) in flight ahead of the "
+                "peer's kex packets, both roles")
     ctx.trust("pv/lib_runloop.py gate socket / Tap", "the model's message kinds are classified by reply mechanism; "
               "the classification itself is what the differential run checks")
     ctx.assume("the peer of the re-exchange is a stock paramiko transport (it aborts on a non-kex message while it "
                "expects a kex message)")
+    sites, takes, handlers = L.write_generated_c11(ctx)
+    ctx.extra["send_user_message_sites_under_channel_lock"] = [x for x in sites if x["under_lock"]]
     ctx.build(extra_modules=["Driver.C11"])
 
+    held_jobs = [(role, api, inflight) for role in ("server", "client")
+                 for api in ("shutdown_write", "send", "close") for inflight in ("window", "eof")]
     jobs = []
     for role in ("server", "client"):
         for kind in KINDS:
             quiet = kind in ("data", "extdata", "window", "eof", "chanreq", "globreq")
             jobs.append((role, kind, quiet))
+    njobs = len(jobs)
+    jobs = jobs + [("held",) + j for j in held_jobs]
     results = [None] * len(jobs)
     errors = []
     nxt = [0]
@@ -159,7 +271,7 @@ def run(ctx):
             if i >= len(jobs):
                 return
             try:
-                results[i] = crossing(*jobs[i])
+                results[i] = held_rekey(*jobs[i][1:]) if jobs[i][0] == "held" else crossing(*jobs[i])
             except Exception as e:
                 errors.append((jobs[i], e))
 
@@ -174,6 +286,39 @@ def run(ctx):
         if isinstance(e, InfraError):
             raise e
         ctx.broken.append({"kind": "harness-exception", "what": repr(job), "detail": repr(e)[:300]})
+
+    held_results = results[njobs:]
+    jobs, results = jobs[:njobs], results[:njobs]
+    # ---------------- user-thread calls during a held re-exchange, with a lock-taking peer message in flight
+    hreqs = []
+    for (role, api, inflight), o in zip(held_jobs, held_results):
+        under = any(x["under_lock"] for x in sites if x["func"] == API_FUNC[api])
+        hreqs.append("lock %d %d h1 pk kr pn / u u t t t t u u" % (1 if under else 0, API_TYPE[api]))
+    hrep = ctx.driver("C11", hreqs)
+    for i, ((role, api, inflight), o) in enumerate(zip(held_jobs, held_results)):
+        if o is None:
+            continue
+        ctx.case(("held", role, api, inflight), True)
+        ctx.dist("held:%s+%s" % (api, inflight))
+        ctx.sample(o, limit=10)
+        offending = [t for t in o["window"] if t >= 50]
+        if offending:
+            ctx.fail("user-message-inside-kex-window:%s" % api, o, "types %r between KEXINIT and NEWKEYS" % offending)
+        if not o["completed"] or not o["user_returned"] or o["user_exc"] != "-":
+            ctx.fail("re-exchange-stalls-with-user-call:%s:%s" % (api, inflight), o,
+                     "exchange completed=%s, %s() returned=%s exc=%s, transport exc=%s after %.1f s"
+                     % (o["completed"], api, o["user_returned"], o["user_exc"], o["sub_exc"], o["seconds"]))
+        elif not o["delivered"]:
+            ctx.fail("queued-user-message-lost:%s:%s" % (api, inflight), o, "not delivered after the exchange")
+        if hrep is not None:
+            f = hrep[i].split(" ")
+            model = {"finished": f[0] == "1", "stuck": f[1] == "1"}
+            impl = {"finished": bool(o["completed"] and o["user_returned"] and o["user_exc"] == "-"),
+                    "stuck": not (o["completed"] and o["user_returned"] and o["user_exc"] == "-")}
+            if model != impl:
+                ctx.disagree("channel-lock model: %s with %s in flight" % (api, inflight), o, model, impl)
+            if model["finished"] and API_TYPE[api] not in o["after_newkeys"]:
+                ctx.disagree("channel-lock model: wire after NEWKEYS", o, f[2], o["after_newkeys"])
 
     reqs = []
     for (role, kind, park), o in zip(jobs, results):
@@ -222,7 +367,12 @@ META = {
               "today's code: C11_witness_reply (GLOBAL_REQUEST want_reply / CHANNEL_OPEN answered with _send_message "
               "inside the window) and C11_witness_selfblock (CHANNEL_CLOSE / channel request want_reply answered with "
               "_send_user_message on the transport thread, which then waits for itself). Both are reproduced on the "
-              "real code on every run and listed as known findings."),
+              "real code on every run and listed as known findings. Channel.lock as a resource (RekeyLock model, all "
+              "interleavings of a user thread and the transport thread): invariant, no deadlock and a termination "
+              "bound when the user call releases Channel.lock before _send_user_message, finished runs put the user "
+              "message after NEWKEYS, deadlock witness for the lock-holding variant; the hypothesis is discharged "
+              "for the tree under test from the AST of channel.py (no user-thread call site of _send_user_message "
+              "inside a Channel.lock region), and driven on the real code during a held re-exchange."),
     "note": ("Missing for a full claim: the defects themselves (repair = queue replies during the exchange, not a "
              "small patch); the model is a one-transport abstraction (message kinds × reply mechanism), tied by one "
              "crossing per kind and role — other crossing orders (message arriving after the peer's KEXINIT, "
